@@ -123,11 +123,12 @@ theorem layerAt_push (g : GCode α) (p : Nat) (lid n : Int) (x : α) (hp : p < g
     (Py.layerAt (pushLine g p lid n x).all_layers p).length = (Py.layerAt g.all_layers p).length + 1 := by
   simp [pushLine, Py.layerAppend, Py.layerAt, hp]
 
-/-- the `for i, ln in enumerate(lines)` loop of `append_lines`, from any trip on -/
-theorem loop_inv (p : Nat) (layer_line : Int) (lines : List α) :
+/-- the `for i, ln in enumerate(lines)` loop of `append_lines`, from any trip on (`f`: the translated loop body) -/
+theorem loop_inv (p : Nat) (layer_line : Int) (lines : List α) (f : GCode α → Int → α → GCode α)
+    (hf : ∀ s i ln, f s i ln = pushLine s p (p : Int) (layer_line + i) ln) :
     ∀ (g : GCode α) (i : Int) (job : List α), PInv g job → p < g.all_layers.length →
       layer_line + i = ((Py.layerAt g.all_layers p).length : Int) →
-      let g' := Py.forEnumFrom (fun self i ln => pushLine self p (p : Int) (layer_line + i) ln) i lines g
+      let g' := Py.forEnumFrom f i lines g
       PInv g' (job ++ lines) ∧ g'.all_layers.length = g.all_layers.length ∧ g'.lines = g.lines
         ∧ g'.append_layer = g.append_layer ∧ g'.append_layer_id = g.append_layer_id := by
   induction lines with
@@ -135,17 +136,18 @@ theorem loop_inv (p : Nat) (layer_line : Int) (lines : List α) :
   | cons x xs ih =>
     intro g i job h hp hl
     simp only [Py.forEnumFrom]
-    have hf := pushLine_fields g p (p : Int) (layer_line + i) x
+    rw [hf]
+    have hfl := pushLine_fields g p (p : Int) (layer_line + i) x
     have h' : PInv (pushLine g p (p : Int) (layer_line + i) x) (job ++ [x]) := by
       rw [hl]; exact h.push p x hp
     have := ih (pushLine g p (p : Int) (layer_line + i) x) (i + 1) (job ++ [x]) h' (by omega)
       (by rw [layerAt_push _ _ _ _ _ hp]; omega)
     simp only [List.append_assoc, List.singleton_append] at this
     refine ⟨this.1, ?_, ?_, ?_, ?_⟩
-    · rw [this.2.1]; exact hf.1
-    · rw [this.2.2.1]; exact hf.2.1
-    · rw [this.2.2.2.1]; exact hf.2.2.1
-    · rw [this.2.2.2.2]; exact hf.2.2.2
+    · rw [this.2.1]; exact hfl.1
+    · rw [this.2.2.1]; exact hfl.2.1
+    · rw [this.2.2.2.1]; exact hfl.2.2.1
+    · rw [this.2.2.2.2]; exact hfl.2.2.2
 
 theorem PInv.congr {g g' : GCode α} {job : List α} (h : PInv g job) (a : g'.all_layers = g.all_layers)
     (b : g'.layer_idxs = g.layer_idxs) (c : g'.line_idxs = g.line_idxs) : PInv g' job := by
@@ -174,22 +176,24 @@ theorem append_lines_inv (g : GCode α) (job : List α) (newLayer : Bool) (lines
     PInv (append_lines g newLayer lines) (job ++ lines) ∧ (append_lines g newLayer lines).lines = g.lines := by
   simp only [append_lines, Py.forEnum]
   split
-  · have := loop_inv g.all_layers.length
-      ((Py.len (Py.layerAt (g.all_layers ++ [[]]) g.all_layers.length)))
-      lines { g with all_layers := g.all_layers ++ [[]] } 0 job h.newLayer (by simp) (by simp [Py.len])
-    have e : Py.len (g.all_layers ++ [[]]) - 1 = (g.all_layers.length : Int) := by simp [Py.len]
-    rw [e]
-    exact ⟨this.1, this.2.2.1⟩
+  · refine (fun this => ⟨this.1, this.2.2.1⟩)
+      (loop_inv g.all_layers.length (Py.len (Py.layerAt (g.all_layers ++ [[]]) g.all_layers.length)) lines _ ?_
+        { g with all_layers := g.all_layers ++ [[]] } 0 job h.newLayer (by simp) (by simp [Py.len]))
+    intro s i ln
+    simp only [pushLine, Py.len, GCode.mk.injEq, List.append_cancel_left_eq, List.cons.injEq, List.length_append,
+      List.length_singleton, true_and, and_true]
+    omega
   · rename_i hc
     have hne : 0 < g.all_layers.length := by
       cases hg : g.all_layers with
       | nil => simp [hg, Py.isEmpty] at hc
       | cons a b => simp
-    have := loop_inv (g.all_layers.length - 1) ((Py.len (Py.layerAt g.all_layers (g.all_layers.length - 1))))
-      lines g 0 job h (by omega) (by simp [Py.len])
-    have e : (Py.len g.all_layers - 1) = ((g.all_layers.length - 1 : Nat) : Int) := by simp only [Py.len]; omega
-    rw [e]
-    exact ⟨this.1, this.2.2.1⟩
+    refine (fun this => ⟨this.1, this.2.2.1⟩)
+      (loop_inv (g.all_layers.length - 1) (Py.len (Py.layerAt g.all_layers (g.all_layers.length - 1))) lines _ ?_
+        g 0 job h (by omega) (by simp [Py.len]))
+    intro s i ln
+    simp only [pushLine, Py.len, GCode.mk.injEq, List.append_cancel_left_eq, List.cons.injEq, true_and, and_true]
+    omega
 
 /-- the job a sequence of `append_lines` calls hands over -/
 def jobOf (batches : List (Bool × List α)) : List α := (batches.map (·.2)).flatten
